@@ -73,7 +73,7 @@ pub fn run(args: &Args) {
                         else if realtime && json!(got.lms) != v["expect"]["lms"] { res.mismatch("violation", "C17/list/last_modified", format!("expected {} got {:?}", v["expect"]["lms"], got.lms), small.clone()); }
                     }
                     let (path, prefix, max) = last_list_req(&sim);
-                    if json!(prefix) != v["req_prefix"] { res.mismatch("violation", "C17/list/request_prefix", format!("server received prefix {:?}", prefix.iter().filter_map(|c| char::from_u32(*c)).collect::<String>()), small.clone()); }
+                    if json!(prefix) != v["req_prefix"] { res.mismatch("drift", "C17/list/request_prefix", format!("server received prefix {:?}", prefix.iter().filter_map(|c| char::from_u32(*c)).collect::<String>()), small.clone()); }
                     if path != cps(&format!("/{}", bucket_name)) { res.mismatch("violation", "C17/list/request_bucket", format!("server received path {:?}", path), small.clone()); }
                     if realtime && Some(max) != v["max"].as_i64() { res.mismatch("drift", "C17/list/request_max_keys", format!("max-keys {max}"), small.clone()); }
                     if v["bucket"].as_array().map(|a| a.len()).unwrap_or(0) == 3 { res.sample(small); }
